@@ -65,6 +65,7 @@ type Connector struct {
 	IDPrefix  string
 
 	updateCh chan imap.Update
+	doneCh   chan struct{}
 	closed   bool
 
 	// FailCall decides whether call #n (1-based, per kind) of the given kind fails; nil = never.
@@ -86,6 +87,10 @@ type Connector struct {
 	// MoveRemovesOriginal is what MoveMessages reports back (true = folders).
 	MoveRemovesOriginal bool
 
+	// RejectUnknownMessages makes AddMessagesToMailbox / MoveMessages fail for messages the remote no longer
+	// has (as a real remote does) instead of ignoring them.
+	RejectUnknownMessages bool
+
 	// LiteralFetches counts GetMessageLiteral calls.
 	LiteralFetches int
 }
@@ -101,6 +106,7 @@ func New(usernames []string, password string) *Connector {
 		Mailboxes:           map[imap.MailboxID]*Mbox{},
 		Messages:            map[imap.MessageID]*Msg{},
 		updateCh:            make(chan imap.Update),
+		doneCh:              make(chan struct{}),
 		counts:              map[string]int{},
 		Visibility:          map[imap.MailboxID]imap.MailboxVisibility{},
 		MoveRemovesOriginal: true,
@@ -368,6 +374,14 @@ func (c *Connector) AddMessagesToMailbox(_ context.Context, _ connector.IMAPStat
 		return err
 	}
 
+	if c.RejectUnknownMessages {
+		for _, id := range ids {
+			if _, ok := c.Messages[id]; !ok {
+				return fmt.Errorf("verif: the remote has no message %s", id)
+			}
+		}
+	}
+
 	for _, id := range ids {
 		if m, ok := c.Messages[id]; ok {
 			m.Mailboxes[mboxID] = true
@@ -404,6 +418,14 @@ func (c *Connector) MoveMessages(_ context.Context, _ connector.IMAPStateWrite, 
 
 	if err := c.fault("MoveMessages"); err != nil {
 		return false, err
+	}
+
+	if c.RejectUnknownMessages {
+		for _, id := range ids {
+			if _, ok := c.Messages[id]; !ok {
+				return false, fmt.Errorf("verif: the remote has no message %s", id)
+			}
+		}
 	}
 
 	for _, id := range ids {
@@ -452,15 +474,24 @@ func (c *Connector) MarkMessagesForwarded(_ context.Context, _ connector.IMAPSta
 	return c.mark("MarkMessagesForwarded", imap.XFlagDollarForwarded, ids, forwarded)
 }
 
-func (c *Connector) GetUpdates() <-chan imap.Update { return c.updateCh }
+func (c *Connector) GetUpdates() <-chan imap.Update {
+	c.mu.Lock()
+	defer c.mu.Unlock()
+
+	return c.updateCh
+}
 
 func (c *Connector) Close(context.Context) error {
 	c.mu.Lock()
 	defer c.mu.Unlock()
 
+	// The update channel is never closed (a sender may be in Submit); closing is signalled on doneCh.
 	if !c.closed {
 		c.closed = true
-		close(c.updateCh)
+
+		if c.doneCh != nil {
+			close(c.doneCh)
+		}
 	}
 
 	return nil
@@ -481,6 +512,7 @@ func (c *Connector) TakeEchoes() []imap.Update {
 func (c *Connector) Submit(u imap.Update, timeout time.Duration) error {
 	c.mu.Lock()
 	closed := c.closed
+	ch, done := c.updateCh, c.doneCh
 	c.mu.Unlock()
 
 	if closed {
@@ -488,8 +520,10 @@ func (c *Connector) Submit(u imap.Update, timeout time.Duration) error {
 	}
 
 	select {
-	case c.updateCh <- u:
+	case ch <- u:
 		return nil
+	case <-done:
+		return errors.New("connector closed")
 	case <-time.After(timeout):
 		return errors.New("update not taken by the server within the watchdog")
 	}
@@ -541,6 +575,7 @@ func (c *Connector) Reopen() {
 	defer c.mu.Unlock()
 
 	c.updateCh = make(chan imap.Update)
+	c.doneCh = make(chan struct{})
 	c.closed = false
 }
 
